@@ -183,3 +183,7 @@ Lemma c03_validity_fresh_l : forall t1 t2 t3 t4 t5 h1 h2 h3 n v,
   ~ (exists x, advertises (run (h1 ++ h2) (init5 t1 t2 t3 t4 t5)) n v x) ->
   ~ (exists x, advertises (run (h1 ++ h2 ++ h3) (init5 t1 t2 t3 t4 t5)) n v x).
 Proof. intros until v. intros C. apply hist_validity_never_returns; [apply Inv_init5 | now apply clean_Clean]. Qed.
+
+Lemma inv_reachable_l : forall t1 t2 t3 t4 t5 h,
+  clean (init5 t1 t2 t3 t4 t5) h = true -> Inv (run h (init5 t1 t2 t3 t4 t5)).
+Proof. intros. apply run_good; [apply Inv_init5 | now apply clean_Clean]. Qed.
